@@ -79,9 +79,10 @@ def setup():
 class Stamped:
     """World with one process (pid 50) whose stat/status/smaps reads are version-stamped."""
 
-    def __init__(self):
+    def __init__(self, rollup=False):
         env = setup()
         self.ps = env["ps"]
+        self.rollup = rollup
         self.counter = 0
         self._tick_lock = threading.Lock()
         t = env["ProcTable"]()
@@ -92,6 +93,9 @@ class Stamped:
         p.raw_stat = self._stat
         p.raw_status = self._status
         p.overrides["smaps"] = lambda: env["vkernel"].F(self._smaps)
+        if rollup:
+            # a kernel with /proc/PID/smaps_rollup: memory_full_info() has a source of its own, stamped like the others
+            p.overrides["smaps_rollup"] = lambda: env["vkernel"].F(self._rollup)
         self.t, self.p = t, p
         vk = env["vkernel"].VK()
         vk.table = t
@@ -124,6 +128,33 @@ class Stamped:
                 b"Shared_Clean:          0 kB\nShared_Dirty:          0 kB\nPrivate_Clean:         %d kB\n"
                 b"Private_Dirty:         0 kB\nReferenced:            0 kB\nAnonymous:             0 kB\n"
                 b"Swap:                  %d kB\nVmFlags: rd mr\n" % (v, v, v, v))
+
+
+def _rollup(self):
+    v = self.tickv()
+    return (b"55c69524c000-7ffd1b1fe000 ---p 00000000 00:00 0                          [rollup]\n"
+            b"Rss:                   %d kB\nPss:                   %d kB\nPss_Anon:              0 kB\n"
+            b"Shared_Clean:          0 kB\nShared_Dirty:          0 kB\nPrivate_Clean:         %d kB\n"
+            b"Private_Dirty:         0 kB\nReferenced:            0 kB\nAnonymous:             0 kB\n"
+            b"Swap:                  %d kB\nSwapPss:               0 kB\n" % (v, v, v + ROLLUP_MARK, v))
+
+
+ROLLUP_MARK = 10**6         # uss of a roll-up reading = version + this: tells which of the two files an answer came from
+
+
+def rollup_answer_problem(val, c0, first_in_block):
+    """memory_full_info() on a kernel with smaps_rollup: the roll-up is its source (that is what it reads outside a block) and
+    the library does not keep it for the block - so the answer is a roll-up reading taken during this call, or (the statement's
+    wording) the block's first one; never figures summed up from another file."""
+    v = val.pss // 1024
+    if val.uss // 1024 - v != ROLLUP_MARK:
+        return "value_from_another_source:memory_full_info", f"uss={val.uss} pss={val.pss}: not a smaps_rollup reading"
+    if not (v > c0 or (first_in_block is not None and v == first_in_block)):
+        return "stale_rollup_value:memory_full_info", f"v{v}, counter before the call v{c0}, first roll-up reading of the block {first_in_block}"
+    return None
+
+
+Stamped._rollup = _rollup
 
 
 def version_of(method, val):
@@ -196,10 +227,13 @@ def gen_events(rng):
 def run_events(events, acc):
     env = setup()
     ps = env["ps"]
-    w = Stamped()
+    with_rollup = harness.chash(events)[-1] in "01234567"
+    w = Stamped(rollup=with_rollup)
+    if with_rollup:
+        acc.count("event_sequences_on_a_kernel_with_smaps_rollup")
     viols = []
     nontrivial = False
-    ctx = f"events={events}"
+    ctx = f"events={events}" + (" [smaps_rollup present]" if with_rollup else "")
     cms = []
     cache = {}          # source -> version first read in the outermost block
     opens_at_enter = None
@@ -328,6 +362,14 @@ def run_events(events, acc):
                 if res[0] != "ok":
                     continue
                 src = SOURCE.get(m)
+                if with_rollup and m == "memory_full_info":
+                    acc.count("rollup_answers_checked")
+                    pb = rollup_answer_problem(res[1], c0, cache.get("smaps_rollup") if cms else None)
+                    if pb:
+                        viols.append((pb[0], ctx + " " + pb[1]))
+                    elif cms:
+                        cache.setdefault("smaps_rollup", res[1].pss // 1024)
+                    continue
                 if src is None:
                     continue
                 v = version_of(m, res[1])
@@ -414,6 +456,15 @@ def run_events(events, acc):
                 c1 = w.counter
                 for a in attrs:
                     src = SOURCE.get(a)
+                    if with_rollup and a == "memory_full_info":
+                        if a in d and d[a] != adv:
+                            acc.count("rollup_answers_checked")
+                            pb = rollup_answer_problem(d[a], c0, cache.get("smaps_rollup") if cms else None)
+                            if pb:
+                                viols.append(("as_dict_" + pb[0], ctx + " " + pb[1]))
+                            elif cms:
+                                cache.setdefault("smaps_rollup", d[a].pss // 1024)
+                        continue
                     if src is None or a not in d or not cms:
                         continue
                     v = version_of(a, d[a]) if d[a] != adv else None
